@@ -44,3 +44,6 @@ spec fn merged(a: Seq<Radial>, b: Seq<Radial>, out: Seq<Radial>) -> bool {
         &&& forall|i: int, j: int| 0 <= i < j < out.len() && out[i].azimuth_number == out[j].azimuth_number ==> #[trigger] p[i] < #[trigger] p[j]
     }
 }
+
+pub assume_specification<T, A: core::alloc::Allocator> [ <Vec<T, A> as AsRef<Vec<T, A>>>::as_ref ] (v: &Vec<T, A>) -> (r: &Vec<T, A>)
+    ensures r == v;
